@@ -337,7 +337,7 @@ fn map_noncontiguous(which: usize) {
 }
 
 // AdjacencyList::complement (threaded) on every digraph of order 3 with 2 worker threads (chunks of 2 and 1 rows).
-// @verif prop=C11 tier=quick fl=f2 role=complement/adjacency-list t=1500 mem=14
+// @verif prop=C11 tier=quick fl=f2 role=complement/adjacency-list t=2400 mem=24
 #[cfg_attr(kani, kani::proof)]
 #[cfg_attr(kani, kani::unwind(8))]
 pub fn c11_complement_adjacency_list_n3_t2() {
@@ -354,7 +354,7 @@ pub fn c11_complement_adjacency_list_n3_p4() {
 
 // @verif prop=C11 tier=quick fl=f0 role=complement/matrix t=1200 mem=12
 #[cfg_attr(kani, kani::proof)]
-#[cfg_attr(kani, kani::unwind(8))]
+#[cfg_attr(kani, kani::unwind(10))]
 pub fn c11_complement_matrix_n3() {
     complement::<AdjacencyMatrix, 3>(1);
 }
@@ -366,7 +366,7 @@ pub fn c11_complement_edge_list_n3() {
     complement::<EdgeList, 3>(1);
 }
 
-// @verif prop=C11 tier=quick fl=f1 feat=map4 role=complement/adjacency-map t=1200 mem=12
+// @verif prop=C11 tier=thorough fl=f1 feat=map4 role=complement/adjacency-map t=3600 mem=30
 #[cfg_attr(kani, kani::proof)]
 #[cfg_attr(kani, kani::unwind(10))]
 pub fn c11_complement_adjacency_map_n3() {
@@ -382,7 +382,7 @@ pub fn c11_converse_adjacency_list_n3() {
 
 // @verif prop=C11 tier=quick fl=f0 role=converse/matrix t=1200 mem=12
 #[cfg_attr(kani, kani::proof)]
-#[cfg_attr(kani, kani::unwind(8))]
+#[cfg_attr(kani, kani::unwind(10))]
 pub fn c11_converse_matrix_n3() {
     converse::<AdjacencyMatrix, 3>();
 }
@@ -394,7 +394,7 @@ pub fn c11_converse_edge_list_n3() {
     converse::<EdgeList, 3>();
 }
 
-// @verif prop=C11 tier=quick fl=f2 feat=map4 role=converse/adjacency-map t=1200 mem=12
+// @verif prop=C11 tier=thorough fl=f2 feat=map4 role=converse/adjacency-map t=3600 mem=30
 #[cfg_attr(kani, kani::proof)]
 #[cfg_attr(kani, kani::unwind(10))]
 pub fn c11_converse_adjacency_map_n3() {
@@ -409,7 +409,7 @@ pub fn c11_converse_weighted_n3() {
 }
 
 // AdjacencyList::union (threaded) of every order-2 with every order-3 digraph, 2 worker threads.
-// @verif prop=C11 tier=quick fl=f2 role=union/adjacency-list t=1500 mem=14
+// @verif prop=C11 tier=thorough fl=f2 role=union/adjacency-list t=3600 mem=30
 #[cfg_attr(kani, kani::proof)]
 #[cfg_attr(kani, kani::unwind(8))]
 pub fn c11_union_adjacency_list_n2_m3_t2() {
@@ -425,7 +425,7 @@ pub fn c11_union_adjacency_list_n2_m3_p4() {
 
 // @verif prop=C11 tier=quick fl=f0 role=union/matrix t=1200 mem=12
 #[cfg_attr(kani, kani::proof)]
-#[cfg_attr(kani, kani::unwind(8))]
+#[cfg_attr(kani, kani::unwind(10))]
 pub fn c11_union_matrix_n2_m3() {
     union::<AdjacencyMatrix, 2, 3, 3>(1);
 }
@@ -438,7 +438,7 @@ pub fn c11_union_edge_list_n3_m2() {
 }
 
 // AdjacencyMap::union (merge-path partitioning over threads), orders 2 and 2, 2 worker threads.
-// @verif prop=C11 tier=quick fl=f2 feat=map4 role=union/adjacency-map t=1800 mem=16
+// @verif prop=C11 tier=thorough fl=f2 feat=map4 role=union/adjacency-map t=3600 mem=30
 #[cfg_attr(kani, kani::proof)]
 #[cfg_attr(kani, kani::unwind(8))]
 pub fn c11_union_adjacency_map_n2_m2_t2() {
@@ -452,7 +452,7 @@ pub fn c11_union_adjacency_map_n2_m2_p4() {
     union::<AdjacencyMap, 2, 2, 2>(4);
 }
 
-// @verif prop=C11 tier=quick fl=f2 feat=map4 role=filter/adjacency-map t=1200 mem=12
+// @verif prop=C11 tier=thorough fl=f2 feat=map4 role=filter/adjacency-map t=3600 mem=30
 #[cfg_attr(kani, kani::proof)]
 #[cfg_attr(kani, kani::unwind(10))]
 pub fn c11_filter_adjacency_map_n3() {
@@ -485,4 +485,34 @@ pub fn c11_union_idempotent_adjacency_list_n3_p4() {
 #[cfg_attr(kani, kani::unwind(8))]
 pub fn c11_complement_adjacency_list_n4_p6() {
     complement::<AdjacencyList, 4>(6);
+}
+
+// AdjacencyMap complement / converse / filter_vertices on every digraph of order 2 (quick); order 3 is thorough.
+// @verif prop=C11 tier=quick fl=f1 feat=map4 role=complement/adjacency-map t=1200 mem=16
+#[cfg_attr(kani, kani::proof)]
+#[cfg_attr(kani, kani::unwind(8))]
+pub fn c11_complement_adjacency_map_n2() {
+    complement::<AdjacencyMap, 2>(1);
+}
+
+// @verif prop=C11 tier=quick fl=f2 feat=map4 role=converse/adjacency-map t=1200 mem=16
+#[cfg_attr(kani, kani::proof)]
+#[cfg_attr(kani, kani::unwind(8))]
+pub fn c11_converse_adjacency_map_n2() {
+    converse::<AdjacencyMap, 2>();
+}
+
+// @verif prop=C11 tier=quick fl=f2 feat=map4 role=filter/adjacency-map t=1200 mem=16
+#[cfg_attr(kani, kani::proof)]
+#[cfg_attr(kani, kani::unwind(8))]
+pub fn c11_filter_adjacency_map_n2() {
+    filter::<2>();
+}
+
+// AdjacencyList::union of every order-1 with every order-2 digraph, 2 worker threads.
+// @verif prop=C11 tier=quick fl=f2 role=union/adjacency-list t=1500 mem=16
+#[cfg_attr(kani, kani::proof)]
+#[cfg_attr(kani, kani::unwind(8))]
+pub fn c11_union_adjacency_list_n1_m2_t2() {
+    union::<AdjacencyList, 1, 2, 2>(cx::EXACT + 2);
 }
